@@ -77,23 +77,26 @@ var uploadPaths = []*uploadPath{
 
 func (rg *rig) newUploadObject(rng *rand.Rand, up *uploadPath, tag string) *object {
 	size := pickSize(rng, !rg.w.r.Quick)
-	switch up.kind {
-	case cache.CAS:
-		return newCAS(rng, "uncompressed", size, tag, false) // only the logical content matters here
-	case cache.AC:
-		if size > 100*lib.KiB {
-			size = 100 * lib.KiB
-		}
-		return newAR(rng, cache.AC, size, tag)
-	default:
-		if rg.family == "grpc" {
-			if size > 100*lib.KiB {
-				size = 100 * lib.KiB
-			}
-			return newAR(rng, cache.RAW, size, tag)
-		}
-		return newRaw(rng, size, tag)
+	if rg.maxProxy > 0 && int64(size) > rg.maxProxy-200 {
+		size = int(rg.maxProxy) - 200 - rng.IntN(1000) // a peer must be allowed to fetch it
 	}
+	arSize := size
+	if arSize > 100*lib.KiB {
+		arSize = 100 * lib.KiB
+	}
+	return rg.fresh(func() *object {
+		switch up.kind {
+		case cache.CAS:
+			return newCAS(rng, "uncompressed", size, tag, false) // only the logical content matters here
+		case cache.AC:
+			return newAR(rng, cache.AC, arSize, tag)
+		default:
+			if rg.family == "grpc" {
+				return newAR(rng, cache.RAW, arSize, tag)
+			}
+			return newRaw(rng, size, tag)
+		}
+	})
 }
 
 // localRead reads the entry back from the front end itself.
